@@ -96,12 +96,13 @@ Fixpoint put_details (l : list detail) : word :=
   | [] => []
   | (tu, v) :: r => put_bytes tu ++ put_bytes v ++ put_details r
   end.
-(* op [1; mode; code; msg; n; details...]; the mode (unary / streaming / trailers-only)
+(* op [1; mode; code; msg; n; details...]; the mode (0 unary / 1 streaming / 2 streaming
+   trailers-only / 3 = 2 with ClientStream.Header() called before RecvMsg / 4 = 3 on a bidi stream)
    does not enter the model: the status travels in the same trailer fields *)
 Definition decode_op (w : word) : option hstatus :=
   match w with
   | 1 :: mode :: code :: r =>
-    if (mode <? 0) || (mode >? 2) || (code <? 0) || (code >? max_u32) then None else
+    if (mode <? 0) || (mode >? 4) || (code <? 0) || (code >? max_u32) then None else
     match get_bytes r with
     | Some (msg, n :: r') =>
       if n <? 0 then None else
